@@ -215,7 +215,7 @@ def post_cases(draw, tier="quick"):
             "prior": draw(st.sampled_from(["gauss_scalar", "gauss_vecmean", "gauss_matrix", "gmrf", "cauchy", "none"])),
             "pmean": draw(gen.vec(n, -1, 1)), "pvar": draw(st.lists(gen.logpos(-1, 0.5), min_size=n, max_size=n)),
             "PG": draw(gen.mat(n, n, -0.5, 0.5)),
-            "second": draw(st.booleans()), "data2": draw(gen.vec(m, -2, 2)),
+            "second": draw(st.sampled_from([False, True, "user"])), "data2": draw(gen.vec(m, -2, 2)),
             "x": draw(gen.vec(n, -1, 1)), "fd": draw(st.booleans())}
 
 
@@ -267,7 +267,15 @@ def build_post(c):
     objs = {"likelihood": L}
     if prior is not None:
         objs["posterior"] = cuqi.distribution.Posterior(L, prior)
-        if c["second"]:
+        if c["second"] == "user":
+            # a user-defined likelihood (log-density and gradient given as functions) next to a data likelihood
+            w = np.cos(1.0 + np.arange(n))
+            t0 = float(c["data2"][0])
+            UL = cuqi.likelihood.UserDefinedLikelihood(dim=n, logpdf_func=lambda z: float(-0.5 * (w @ np.asarray(z, dtype=float).reshape(-1) - t0) ** 2),
+                                                       gradient_func=lambda z: -(w @ np.asarray(z, dtype=float).reshape(-1) - t0) * w,
+                                                       geometry=geom, name=argname)
+            objs["multi"] = cuqi.distribution.MultipleLikelihoodPosterior(L, UL, prior)
+        elif c["second"]:
             y2 = data_dist("y2", model)
             data2 = A(c["data2"]) if kind != "lognormal" else np.exp(A(c["data2"]))
             J = cuqi.distribution.JointDistribution(y, y2, prior)
@@ -278,7 +286,7 @@ def build_post(c):
 def run_post(c, rec):
     import cuqi
     mc = c["model"]
-    tags = dict(c12.tags_of(mc), noise=c["noise"], prior=c["prior"], second=c["second"])
+    tags = dict(c12.tags_of(mc), noise=c["noise"], prior=c["prior"], second=str(c["second"]))
     nontrivial = (not c12.identity_like(mc["dom"])) or mc["cc"] > 0 or c["noise"] != "cov_scalar" or c["prior"] not in ("gauss_scalar", "none")
     if rec.classify(tags, nontrivial):
         return
